@@ -767,6 +767,29 @@ def run(prog, rep, tier):
     if n1313 < 4:
         raise CheckerError("R13.13: only %d decorated evtx/journal printers found" % n1313)
 
+    # ------------------------------------------------------------ R13.14 the requested zone of the datetime field is the zone that was asked for
+    # "...the datetime field is the message's instant in the ... requested zone": -z/-u/-l go through
+    # the same offset parser as --tz-offset; its structural rules (ambiguous names rejected, the sign
+    # reaches every term of a hand-written offset) are lifted from C14 R14.4/R14.8.
+    import contextlib as _c13, io as _i13
+    import c14 as _c14b
+    from common import Report as _R13
+    R1314 = rep.rule("R13.14", "the --prepend-tz value resolves to the offset it denotes (from C14 R14.4, R14.8)")
+    _s14b = _R13("C14", "quick", dict(rep.meta))
+    _s14b.finish = lambda *a, **k: 0
+    with _c13.redirect_stdout(_i13.StringIO()):
+        _c14b.run(prog, _s14b, "quick")
+    n1314 = 0
+    for (rid_, key_, what_, det_) in _s14b.violations:
+        if rid_ in ("R14.4", "R14.8"):
+            rep.violation(R1314, key_.split("|", 1)[1] + "|" + rid_, what_)
+    for rid_ in ("R14.4", "R14.8"):
+        for k_ in sorted(_s14b.rules.get(rid_, {}).get("keys", ())):
+            n1314 += 1
+            rep.examined(R1314, "%s|%s" % (rid_, k_), sample={"rule": rid_, "instance": k_})
+    if n1314 < 2:
+        raise CheckerError("R13.14: only %d lifted C14 instances" % n1314)
+
     return rep.finish(
         "Static necessary-condition check of the decoration path: for all 8 flag combinations of all 4 dispatchers the selected variant writes, "
         "per printed line, the file field then the date field before any message bytes exactly when the flags say so (must-pass-through on the "
